@@ -7,6 +7,13 @@ mod pure;
 mod stats;
 
 use common::{Out, RunStats};
+
+/// The process allocator is the real `AllocProfiler`, so that allocations divan
+/// makes itself (slot buffers, sample vectors) reach the thread tallies like
+/// they do in a user's benchmark binary; scheduler, hooks and harness
+/// bookkeeping erase their own traces (`divan::verif::untracked`).
+#[global_allocator]
+static GLOBAL: divan::AllocProfiler = divan::AllocProfiler::system();
 use serde_json::json;
 
 fn main() {
